@@ -97,6 +97,7 @@ def run_c11(cfg: HCfg, c: Ctx) -> Any:
     # the history
     graph_roots = [l for l in labels if root_kind[l] == "none"]
     OPS = ["call", "setup", "exec"] + ["exec:" + l for l in labels] + ["setup:" + l for l in labels] + ["setup:[]"] + (["deepcopy"] if cfg.deepcopy else [])
+    OPS += ["execsetup:" + l for l in labels]  # executor(target_nodes=[l]).setup(): the setup nodes that selection needs
     if graph_roots:
         OPS.append("setupRT:%s:%s" % (graph_roots[0], labels[-1]))  # setup(root_nodes=[r], target_nodes=[t])
     returns_none = bool(is_setup[labels[0]] and c.choose(2, "returns_none"))  # the first setup node returns None
@@ -196,7 +197,11 @@ def run_c11(cfg: HCfg, c: Ctx) -> Any:
             out = None
             c.cover("w_setup_root_target")
         else:  # setup
-            if arg == "[]":
+            if name == "execsetup":
+                sel = {l for l in ({arg} | anc[arg]) if is_setup[l]}
+                r = dd.executor(target_nodes=[arg]).setup()
+                c.cover("w_executor_setup")
+            elif arg == "[]":
                 sel = set()
                 r = dd.setup(target_nodes=[])
             else:
@@ -216,7 +221,7 @@ def run_c11(cfg: HCfg, c: Ctx) -> Any:
         c.check(not wrong, "main-thread nodes %s ran on another thread than the one that invoked %s" % (wrong, op), prop="C11", data={**data, "step": step, "op": op})
         idents.clear()
         want_setup_run = [l for l in setups if l in sel and l not in before_done]
-        want_run = sorted(want_setup_run + ([l for l in labels if not is_setup[l] and l in sel] if name not in ("setup", "setupRT") else []))
+        want_run = sorted(want_setup_run + ([l for l in labels if not is_setup[l] and l in sel] if name not in ("setup", "setupRT", "execsetup") else []))
         d2 = {**data, "step": step, "op": op, "entered": entered, "done_before": sorted(before_done)}
         for l in setups:
             c.check(cnt.n.get((cur, l), 0) <= 1, "setup node %s executed %d times on one DAG instance" % (l, cnt.n.get((cur, l), 0)), prop="C11", data=d2)
@@ -238,7 +243,7 @@ def run_c11(cfg: HCfg, c: Ctx) -> Any:
                 val[l] = SymVal(vapp("f_" + l, [lift(a) for a in args]))
             c.check(veq(out, tuple(val[l] for l in labels)), "operation %s returned values that do not reuse the first setup results / are not this call's results" % op,
                     prop="C11", data={**d2, "got": out, "want": tuple(val[l] for l in labels)})
-        if setups and before_done and name not in ("setup", "setupRT"):
+        if setups and before_done and name not in ("setup", "setupRT", "execsetup"):
             c.cover("w_reuse")
     if cfg.twin:
         c.check(False, "reachability twin: the end of the harness is reachable", prop="TWIN")
@@ -258,7 +263,7 @@ def run_c15(cfg: HCfg, c: Ctx) -> Any:
     labels = ["n0", "n1", "n2"]
     shape = c.choose(3, "program")
     flavour = cfg.flavours[c.choose(len(cfg.flavours), "flavour")] if len(cfg.flavours) > 1 else cfg.flavours
-    OPS = ["call1", "call2", "failcall", "exec_new", "exec_new:n1", "exec_run", "exec_failrun", "compose", "config"]
+    OPS = ["call1", "call2", "failcall", "exec_new", "exec_new:n1", "exec_run", "exec_failrun", "compose", "config", "setup:n0", "setup:n2"]
     if cfg.ops == "exec":
         OPS = ["call1", "exec_new", "exec_new:n1", "exec_run", "exec_failrun"]
     hist = [OPS[c.choose(len(OPS), "op")] for _ in range(cfg.length)] + [("call1", "call2")[c.choose(2, "last")]]
@@ -410,6 +415,25 @@ def run_c15(cfg: HCfg, c: Ctx) -> Any:
         elif name == "config":
             d.config_from_dict({"nodes": {"n1": {"priority": 1 - 2 * (step % 2), "is_sequential": bool(step % 2)}}, "max_concurrency": 1 + step % 2})
             c.cover("w_config")
+        elif name == "setup":
+            # the programs have no setup node: DAG.setup(target_nodes=[...]) has nothing to run and nothing to remember
+            try:
+                r = d.setup(target_nodes=[arg])
+                if hasattr(r, "__await__"):
+                    import asyncio
+
+                    async def ws(r: Any = r) -> Any:
+                        return await r
+
+                    asyncio.run(ws())
+                out = ("value", None)
+            except SXControl:
+                raise
+            except BaseException as e:
+                out = ("raise", e)
+            c.check(out[0] == "value", "setup(target_nodes=[%s]) raised %r on a DAG without setup nodes" % (arg, out[1]), prop="C15", data=d2)
+            c.check(not entered, "setup(target_nodes=[%s]) ran %s on a DAG without setup nodes" % (arg, entered), prop="C15", data=d2)
+            c.cover("w_setup_op")
     if cfg.twin:
         c.check(False, "reachability twin: the end of the harness is reachable", prop="TWIN")
     c.cover("states", hash(repr(data)))
@@ -589,9 +613,30 @@ def run_c18(cfg: HCfg, c: Ctx) -> Any:
             rkw = kw_of(rsel)
             X2 = c.val("x_restart%d" % rnd)
             entered.clear()
-            rex = target.executor(from_cache=path, **rkw)
+            # optionally the restarted execution writes a cache of its own, from which a third execution restarts
+            chained = bool(rsel == "whole" and c.choose(2, "chained"))
+            path2 = os.path.join(tmp, "cache2.pkl")
+            rex = target.executor(from_cache=path, **rkw, **({"cache_in": path2} if chained else {}))
             out2 = _run(rex, X2)
             ran = list(entered)
+            if chained:
+                with open(path2, "rb") as f:
+                    content2 = pickle.load(f)
+                os.unlink(path2)
+                ids2 = {k for k in content2 if k in labels}
+                c.check(ids2 == set(labels), "the cache written by a restarted whole-DAG execution holds %s, expected every node" % sorted(ids2), prop="C18",
+                        data={**d2, "second_file": sorted(ids2)})
+                with open(path2, "wb") as f:
+                    pickle.dump(content2, f)
+                entered.clear()
+                out3 = _run(copy.deepcopy(pristine).executor(from_cache=path2), c.val("x_third%d" % rnd))
+                ran3 = list(entered)
+                os.unlink(path2)
+                c.check(not ran3, "an execution restarted from the second cache executed %s although every result is cached" % sorted(ran3), prop="C18", data={**d2, "ran": ran3})
+                c.check(veq(out3, out2), "an execution restarted from the second cache returned other values than the execution that wrote it", prop="C18",
+                        data={**d2, "got": out3, "want": out2})
+                entered[:] = ran
+                c.cover("w_chained_caches")
             # an executor is single use, also when it was started from a cache
             try:
                 _run(rex, c.val("x_again%d" % rnd))
